@@ -135,7 +135,11 @@ QUAD_ROOTS['ensures'] = dict(QUAD['ray_quad']['ensures'], **{
     'result_is_one_of_the_roots': 'implies(result >= 0, result == x[0] or result == x[1])',
     'every_real_root_is_stored': 'implies(a >= dbl(1e-15), forall_real(lambda y: implies(a*y*y + 2*b*y + c == 0, b*b - a*c >= 0 and (y == x[0] or y == x[1]))))',
 })
+QUAD_ROOTS['ensures']['vieta'] = 'implies(a >= dbl(1e-15) and b*b - a*c >= 0, a*(x[0] + x[1]) == -2*b and a*x[0]*x[1] == c)'     # quantifier-free form of "these are all the roots"
 QUAD_ROOTS['assigns'] = ['x[*]']
+# what callers see: the quantifier-free clauses only (roots stored, Vieta, ordering, which one is returned); a caller's own "for every y" goal
+# becomes a ground nonlinear query after Skolemisation
+QUAD_QF = dict(QUAD_ROOTS, assumed=True, ensures={k: v for k, v in QUAD_ROOTS['ensures'].items() if 'forall' not in v})
 CAPSULE = {
     '__defs__': CAP_DEFS, '__no_merge__': True,
     'ray_quad': QUAD_ROOTS,
